@@ -62,6 +62,23 @@ func (s *scen) addSubject(sub subject, op string) int {
 	return len(s.subjects) - 1
 }
 
+// addSubjectBase registers a subject WITHOUT touching it: the baseline is the digest of an
+// identically built twin, so that the next call on the subject is its very first observation.
+func (s *scen) addSubjectBase(sub subject, op string, twin subject) int {
+	s.ops = append(s.ops, op)
+	v, b := twin.digest()
+	s.subjects = append(s.subjects, sub)
+	s.base = append(s.base, [2]string{v, b})
+	return len(s.subjects) - 1
+}
+
+// overwrite rewrites EVERY element of buffer cv.
+func (s *scen) overwrite(cv int, b *buf) {
+	for i := 0; i < b.n; i++ {
+		s.write(cv, b, i)
+	}
+}
+
 // write mutates element i of buffer cv (both in reality and in the op list).
 func (s *scen) write(cv int, b *buf, i int) {
 	nv := b.mutate(i)
@@ -564,6 +581,123 @@ func scenarioConstructedMessage() {
 	s.emit()
 }
 
+// scenarioFirstSerialiser: for a constructed / derived / re-stamped data message whose lazy encode
+// memo nobody has fired yet, each serialiser in turn is the FIRST observation; its result and the
+// scratch buffer it was given are overwritten completely (and the scratch recycled for another
+// message); then everything is observed, on copies made before and after that first call too.
+// Baselines come from identically built twins, so nothing touches the message before the call.
+func scenarioFirstSerialiser(ser int, prov int) {
+	serNames := []string{"ToBytes", "AppendBodyTo(nil)", "AppendBodyTo(spare capacity)", "AppendBodyTo(short capacity)", "MarshalBinary", "Codec.ToBytes", "ToBytes on a re-stamped copy", "AppendBodyTo(spare) on a re-stamped copy"}
+	provNames := []string{"constructed", "derived", "re-stamped"}
+	s := &scen{what: "msg/first-serialiser/" + provNames[prov] + "/" + serNames[ser]}
+	r := c.Rng
+	it, bufs := mkTree(2)
+	var names []string
+	for _, b := range bufs {
+		names = append(names, fmt.Sprint(s.newBuf(b)))
+	}
+	sys := randSys()
+	fn := uint8(r.Intn(128))*2 + 1
+	stream, sid, w := uint8(r.Intn(128)), uint16(r.Intn(65536)), r.Intn(2) == 0
+	sys2, sid2 := randSys(), uint16(r.Intn(65536))
+	build := func() *hsms.DataMessage {
+		m0, err := hsms.NewDataMessage(stream, fn, w, sid, sys, it)
+		if err != nil {
+			return nil
+		}
+		switch prov {
+		case 1:
+			d, derr := m0.Derive().WithSessionID(sid2).Build()
+			if derr != nil {
+				return nil
+			}
+			return d
+		case 2:
+			return m0.WithSystemBytes(sys2)
+		}
+		return m0
+	}
+	m, tw := build(), build()
+	if m == nil || tw == nil {
+		c.Fail("NewDataMessage / Derive().Build() refused an error-free item", "M")
+		return
+	}
+	o := s.addSubjectBase(msgSubject{m}, "constructm:"+strings.Join(names, ","), msgSubject{tw})
+	// a copy made BEFORE the first serialisation shares the (unfired) body
+	sysPre := randSys()
+	pre := m.WithSystemBytes(sysPre)
+	oPre := s.addSubjectBase(msgSubject{pre}, fmt.Sprintf("share:%d", o), msgSubject{tw.WithSystemBytes(sysPre)})
+
+	target, ot := m, o
+	if ser >= 6 {
+		target, ot = pre, oPre
+	}
+	var res, scratch []byte
+	switch ser {
+	case 0, 6:
+		res = target.ToBytes()
+		s.ops = append(s.ops, fmt.Sprintf("get:%d:1", ot))
+		s.ncv++
+	case 4:
+		res, _ = target.Codec().MarshalBinary()
+		s.ops = append(s.ops, fmt.Sprintf("get:%d:1", ot))
+		s.ncv++
+	case 5:
+		res = target.Codec().ToBytes()
+		s.ops = append(s.ops, fmt.Sprintf("get:%d:1", ot))
+		s.ncv++
+	default:
+		l := r.Intn(4)
+		capacity := l
+		switch ser {
+		case 1:
+			capacity = -1
+		case 2, 7:
+			capacity = l + 4096
+		case 3:
+			capacity = l + r.Intn(2)
+		}
+		if capacity >= 0 {
+			scratch = make([]byte, capacity)
+			r.Read(scratch)
+		}
+		var dst []byte
+		if scratch != nil {
+			dst = scratch[:l]
+		}
+		prefix := append([]byte(nil), dst...)
+		cv := s.newBuf(&buf{n: len(dst), model: append([]byte(nil), dst...)})
+		res = target.AppendBodyTo(dst)
+		if len(res) < len(prefix) || string(res[:len(prefix)]) != string(prefix) {
+			c.Fail("AppendBodyTo changed the destination's existing elements", s.line())
+		}
+		s.ops = append(s.ops, fmt.Sprintf("append:%d:1:%d", ot, cv))
+		s.ncv++
+	}
+	rcv := s.ncv - 1
+	// a copy made AFTER the first serialisation
+	sysPost := randSys()
+	post := m.WithSystemBytes(sysPost).WithSessionID(sid2)
+	s.addSubjectBase(msgSubject{post}, fmt.Sprintf("share:%d", o), msgSubject{tw.WithSystemBytes(sysPost).WithSessionID(sid2)})
+	// overwrite the whole result, then the whole scratch array, then recycle the scratch
+	s.overwrite(rcv, byteBuf(res))
+	for i := range scratch {
+		scratch[i] ^= 0xA5
+	}
+	if scratch != nil {
+		other, _ := hsms.NewDataMessage(1, 1, false, 0, [4]byte{}, secs2.A("another message reusing the pooled buffer"))
+		_ = other.AppendBodyTo(scratch[:0])
+	}
+	s.observe("overwriting the result of the FIRST serialisation (" + serNames[ser] + ") and its scratch buffer")
+	// the second and later results are independent as well
+	res2 := m.ToBytes()
+	s.ops = append(s.ops, fmt.Sprintf("get:%d:1", o))
+	s.ncv++
+	s.overwrite(s.ncv-1, byteBuf(res2))
+	s.observe("overwriting a later serialisation")
+	s.emit()
+}
+
 func scenarioDecodedMessage(mode int) {
 	names := []string{"msg/DecodeHSMSMessage", "msg/DecodeHSMSPayload", "msg/UnmarshalBinary", "msg/DecodeOwnedHSMSPayload(positive control)"}
 	s := &scen{what: names[mode], owned: mode == 3}
@@ -771,6 +905,14 @@ func main() {
 	c = vh.New()
 	if !*onlyConc {
 		n := c.N
+		// corpus first: every serialiser as the first observation of every constructed provenance
+		for rep := 0; rep < 3; rep++ {
+			for prov := 0; prov < 3; prov++ {
+				for ser := 0; ser < 8; ser++ {
+					scenarioFirstSerialiser(ser, prov)
+				}
+			}
+		}
 		for i := 0; i < n; i++ {
 			switch i % 10 {
 			case 0, 1, 2:
@@ -780,7 +922,11 @@ func main() {
 			case 5:
 				scenarioDecodedItem(true)
 			case 6:
-				scenarioConstructedMessage()
+				if i%20 == 6 {
+					scenarioFirstSerialiser(c.Rng.Intn(8), c.Rng.Intn(3))
+				} else {
+					scenarioConstructedMessage()
+				}
 			case 7:
 				scenarioDecodedMessage(c.Rng.Intn(3))
 			case 8:
